@@ -216,7 +216,12 @@ impl<F: Float + SampleUniform + std::fmt::Debug, T: Hash, H: Hasher + Default>
             self.p.swap(j, k);
             //
             // update hsketch and counters
-            let rpj = r + (F::from(j).unwrap());
+            let mut rpj = r + (F::from(j).unwrap());
+            let jp1 = F::from(j + 1).unwrap();
+            if rpj >= jp1 {
+                // r < 1 but r + j can round up to j + 1 : take the float just below j + 1, the integer part of the value must be j
+                rpj = jp1 - jp1 * F::epsilon() * F::from(0.5).unwrap();
+            }
             if rpj < self.hsketch[self.p[j]] {
                 // update of signature of rank j
                 let j_2 = cmp::min(self.hsketch[self.p[j]].to_usize().unwrap(), m - 1);
